@@ -250,6 +250,15 @@ def run(tier, seed):
     if tier == "thorough":
         ck.leanchecker("ScrapliProps.C05")
     if not suites:
+        # translator / model unavailable: the families that need only the REAL code still run (directed search for a
+        # concrete failing input, DESIGN 1.3 step 5b)
+        corpus = json.load(open(VERIF / "corpus" / "C05" / "corpus.json"))
+        cases = [(c["suite"], c["mode"], [], c["prompt"].encode(), "corpus") for c in corpus if c["suite"] in PARTIAL]
+        try:
+            cache_cases(ck, g, False)
+            table_edit_histories(ck, g, cases)
+        except Exception as e:   # noqa: BLE001
+            ck.proof_broken("real-code histories", repr(e))
         return ck.finish()
     # ---- 3 cases
     nsamp = 30 if tier == "quick" else 150
@@ -473,12 +482,41 @@ def _edits(conn, prompts):
             out.append((f"delete level {n}", drop))
     if len(names) > 1:
         out.append((f"previous_priv of {names[-1]} := {names[0]}", lambda c: setattr(c.privilege_levels[names[-1]], "previous_priv", names[0])))
+    # edits that CHANGE pattern strings: in place on the existing PrivilegeLevel objects (what a user does to adapt a level:
+    # `conn.privilege_levels["exec"].pattern = …`), and by replacing the level object by a new one with another pattern
+    for i, n in enumerate(names):
+        m = names[(i + 1) % len(names)]
+        pat = conn.privilege_levels[n].pattern
+        if m != n:
+            out.append((f"pattern of {n} := pattern of {m} (in place)",
+                        lambda c, n=n, m=m: setattr(c.privilege_levels[n], "pattern", c.privilege_levels[m].pattern)))
+
+            def replace_obj(c, n=n, m=m):
+                l = c.privilege_levels[n]
+                c.privilege_levels[n] = PrivilegeLevel(pattern=c.privilege_levels[m].pattern, name=l.name, previous_priv=l.previous_priv,
+                                                       deescalate=l.deescalate, escalate=l.escalate, escalate_auth=l.escalate_auth,
+                                                       escalate_prompt=l.escalate_prompt, not_contains=list(l.not_contains))
+            out.append((f"level {n} replaced by a new level object with the pattern of {m}", replace_obj))
+        for cls_txt in ("[\\w", "[a-z0-9"):
+            if cls_txt in pat:
+                out.append((f"widen the first class of {n} by '!' (in place)",
+                            lambda c, n=n, t=cls_txt: setattr(c.privilege_levels[n], "pattern", c.privilege_levels[n].pattern.replace(t, t + "!", 1))))
+                break
+        for bound in ("{1,63}", "{1,32}"):
+            if bound in pat:
+                out.append((f"narrow {bound} of {n} to {{1,3}} (in place)",
+                            lambda c, n=n, b=bound: setattr(c.privilege_levels[n], "pattern", c.privilege_levels[n].pattern.replace(b, "{1,3}", 1))))
+                break
+        if pat.startswith("^"):
+            out.append((f"drop the leading ^ of {n} (in place)",
+                        lambda c, n=n: setattr(c.privilege_levels[n], "pattern", c.privilege_levels[n].pattern[1:])))
     return out
 
 
 def table_edit_histories(ck, g, cases):
     """multi-step histories on ONE long-lived driver: classify prompts (results are now memoised), edit the privilege
-    table WITHOUT touching any pattern string, call update_privilege_levels(), classify the same prompts again — the
+    table (not_contains / names / previous_priv with every pattern string untouched, AND pattern strings changed in place or
+    through new level objects), call update_privilege_levels(), classify the same prompts again — the
     answers must be (a) what the current table says (spec_classify) and (b) what a brand-new driver given the same
     table answers.  Single edits and chains of two edits, on every platform table incl. the session tables."""
     from scrapli.exceptions import ScrapliPrivilegeError
@@ -496,6 +534,8 @@ def table_edit_histories(ck, g, cases):
         prompts = list(dict.fromkeys(prompts))[:8]
         if not prompts:
             continue
+        # variants only a widened / re-anchored pattern matches (a '!' in the host part, a leading 'x ')
+        prompts = list(dict.fromkeys(prompts + [p[:1] + "!" + p[1:] for p in prompts[:5]] + ["x " + p for p in prompts[:3]]))
         edits = _edits(conn0, prompts)
         chains = [[e] for e in edits] + [[edits[i], edits[(i + 3) % len(edits)]] for i in range(0, len(edits), 4) if len(edits) > 3]
         for chain in chains:
@@ -514,13 +554,19 @@ def table_edit_histories(ck, g, cases):
                     break
                 labels.append(label)
                 for p in prompts:
-                    got, want, spec = real_classify(old, p), real_classify(new, p), spec_classify(old, p)
+                    try:
+                        spec = spec_classify(old, p)
+                    except re.error:          # the edit produced a pattern that is not a regex: not a history of the property
+                        ck.extra["table_edit_rejected"] = ck.extra.get("table_edit_rejected", 0) + 1
+                        ok_chain = False
+                        break
+                    got, want = real_classify(old, p), real_classify(new, p)
                     ck.case(("edit", tname, tuple(labels), p), nontrivial=True, tags=("table-edit-history", f"suite={tname}"))
                     if got != spec or got != want:
                         ck.violation({"suite": tname, "prompt": p, "sessions_registered_first": sessions, "table_edits": list(labels),
                                       "long_lived_driver": got, "fresh_driver_same_table": want, "current_table_says": spec,
-                                      "what": "after editing the privilege table (no pattern string changed) and update_privilege_levels(), "
-                                              "the long-lived driver's classification is not the one of the current table (stale cache)"},
+                                      "what": "after editing the privilege table and update_privilege_levels(), the long-lived driver's "
+                                              "classification is not the one of the current table (something derived from the old table is stale)"},
                                      "stale prompt classification after a table edit + update_privilege_levels()", None)
                     else:
                         ck.traces_validated += 1
